@@ -5,7 +5,7 @@ Open Scope string_scope.
 
 Definition cty_eqb (a c : cty) : bool :=
   match a, c with
-  | I32, I32 | U32, U32 | I64, I64 | U64, U64 | Ptr, Ptr | Void, Void | Any, Any => true
+  | I32, I32 | U32, U32 | I64, I64 | U64, U64 | Ptr, Ptr | Void, Void | Any, Any | I16, I16 | U16, U16 | I8, I8 | U8, U8 => true
   | _, _ => false
   end.
 
